@@ -107,47 +107,57 @@ ADDITIVE = {('MonteCarloGFormula', 'add_covariate_model'):
 # Reads that make the call fail while the attribute still has its constructor value (None / absent column): the
 # failure comes from Python or a library (TypeError of None arithmetic, round(None), KeyError of a missing working
 # column, patsy on a None formula), not from a `raise` in zEpid, so it cannot be read off the source; gate K checks
-# every one of them on every run (guard stream).  (class, method) -> [(attribute, text that occurs in the reading
-# statement)].  Which slot / fit the attribute belongs to is derived, not declared.
+# every one of them on every run (guard stream).  (class, method) -> [(attribute, None | another attribute that the same
+# statement must read)].  Which slot / fit the attribute belongs to is derived, not declared.
 IMPLICIT = {
-    ('IPTW', 'summary'): [('risk_difference', 'np.round(self.risk_difference'),
-                          ('average_treatment_effect', 'np.round(self.average_treatment_effect')],
-    ('IPTW', 'positivity'): [('iptw', 'self.iptw * self.ipmw'), ('ipmw', 'self.iptw * self.ipmw')],
-    ('IPTW', 'standardized_mean_differences'): [('iptw', 'self.iptw * self.ipmw'), ('ipmw', 'self.iptw * self.ipmw'),
-                                                ('__mdenom', 'formula=self.__mdenom')],
-    ('IPTW', 'plot_love'): [('iptw', 'self.iptw * self.ipmw'), ('ipmw', 'self.iptw * self.ipmw'),
-                            ('__mdenom', 'formula=self.__mdenom')],
-    ('IPTW', 'plot_kde'): [('df[__denom__]', "probability='__denom__'")],
-    ('IPTW', 'plot_boxplot'): [('df[__denom__]', "probability='__denom__'")],
-    ('AIPTW', 'summary'): [('risk_difference', 'round(float(self.risk_difference)'),
-                           ('average_treatment_effect', 'round(float(self.average_treatment_effect)')],
-    ('AIPTW', 'positivity'): [('df[_g1_]', "df['_g1_']")],
-    ('AIPTW', 'standardized_mean_differences'): [('df[_g1_]', "df['_g1_']")],
-    ('AIPTW', 'plot_love'): [('df[_g1_]', "df['_g1_']")],
-    ('AIPTW', 'plot_kde'): [('df[_g1_]', "probability='_g1_'"), ('_predicted_y_', 'self._predicted_y_ - ')],
-    ('TMLE', 'summary'): [('risk_difference', 'round(float(self.risk_difference)'),
-                          ('average_treatment_effect', 'round(float(self.average_treatment_effect)')],
-    ('TMLE', 'positivity'): [('g1W', 'self.g1W')],
-    ('TMLE', 'standardized_mean_differences'): [('g1W', 'self.g1W')],
-    ('GEstimationSNM', 'summary'): [('psi_labels', 'self.psi_labels')],
-    ('IPSW', 'summary'): [('risk_difference', 'round(float(self.risk_difference)')],
-    ('GTransportFormula', 'summary'): [('risk_difference', 'round(float(self.risk_difference)')],
-    ('AIPSW', 'summary'): [('risk_difference', 'round(float(self.risk_difference)')],
-    ('IPCW', 'fit'): [('df[__cnumer__]', "self.df['__cnumer__']")],
+    ('IPTW', 'summary'): [('risk_difference', None), ('average_treatment_effect', None)],
+    # `self.iptw * self.ipmw` (None * None): only the statement that combines both weights fails
+    ('IPTW', 'positivity'): [('iptw', 'ipmw'), ('ipmw', 'iptw')],
+    ('IPTW', 'standardized_mean_differences'): [('iptw', 'ipmw'), ('ipmw', 'iptw'), ('__mdenom', None)],
+    ('IPTW', 'plot_love'): [('iptw', 'ipmw'), ('ipmw', 'iptw'), ('__mdenom', None)],
+    ('IPTW', 'plot_kde'): [('df[__denom__]', None)],
+    ('IPTW', 'plot_boxplot'): [('df[__denom__]', None)],
+    ('AIPTW', 'summary'): [('risk_difference', None), ('average_treatment_effect', None)],
+    ('AIPTW', 'positivity'): [('df[_g1_]', None)],
+    ('AIPTW', 'standardized_mean_differences'): [('df[_g1_]', None)],
+    ('AIPTW', 'plot_love'): [('df[_g1_]', None)],
+    ('AIPTW', 'plot_kde'): [('df[_g1_]', None), ('_predicted_y_', None)],
+    ('TMLE', 'summary'): [('risk_difference', None), ('average_treatment_effect', None)],
+    ('TMLE', 'positivity'): [('g1W', None)],
+    ('TMLE', 'standardized_mean_differences'): [('g1W', None)],
+    ('GEstimationSNM', 'summary'): [('psi_labels', None)],
+    ('IPSW', 'summary'): [('risk_difference', None)],
+    ('GTransportFormula', 'summary'): [('risk_difference', None)],
+    ('AIPSW', 'summary'): [('risk_difference', None)],
+    ('IPCW', 'fit'): [('df[__cnumer__]', None)],
 }
 
 MUTATORS = {'append', 'extend', 'insert', 'pop', 'remove', 'clear', 'sort', 'reverse', 'update', 'setdefault',
             'popitem', 'add', 'discard', 'fill', 'put', 'itemset', 'resize', 'setflags', 'byteswap', 'partition',
             'setfield', '__setitem__', '__iadd__', '__imul__', 'set_index_inplace'}
+MUT_FUNCS = {'np.put', 'np.copyto', 'np.place', 'np.putmask', 'np.fill_diagonal', 'np.random.shuffle',
+             'random.shuffle', 'np.add.at', 'np.put_along_axis'}
 VIEW_FUNCS = {'np.asarray', 'np.asanyarray', 'np.require', 'np.ravel', 'np.reshape', 'np.squeeze', 'np.atleast_1d',
               'np.atleast_2d', 'np.ascontiguousarray', 'np.transpose', 'numpy.asarray'}
 VIEW_METHODS = {'to_numpy', 'reshape', 'ravel', 'view', 'squeeze', 'transpose', 'swapaxes', 'get'}
 FRAME_DERIV = {'copy', 'dropna', 'reset_index', 'sort_values', 'drop', 'rename', 'fillna', 'drop_duplicates',
                'sort_index'}
 MAX_STATES = 4000
+SOFT_STATES = 192
 MAX_DEPTH = 5
 
 FRESH = ('fresh',)
+
+_UNP = {}
+
+
+def unp(node):
+    """memoised ast.unparse (nodes live as long as the analysis of their class)"""
+    k = id(node)
+    r = _UNP.get(k)
+    if r is None or r[0] is not node:
+        r = _UNP[k] = (node, ast.unparse(node))
+    return r[1]
 
 
 # ------------------------------------------------------------------------------------------ tests -> DNF over atoms
@@ -160,7 +170,7 @@ class Atoms:
         self.attrs = {}
 
     def add(self, node):
-        text = ast.unparse(node)
+        text = unp(node)
         if text not in self.node:
             self.node[text] = node
             names, attrs = set(), set()
@@ -246,13 +256,16 @@ class Flow:
 
 # ------------------------------------------------------------------------------------------ the walker
 class Walker:
-    def __init__(self, clsname, classdef, init_consts=None, const_attrs=frozenset()):
+    def __init__(self, clsname, classdef, init_consts=None, const_attrs=frozenset(), caller_held=frozenset()):
         self.clsname = clsname
         self.cdef = classdef
         self.funcs = {f.name: f for f in classdef.body if isinstance(f, ast.FunctionDef)}
         self.static = {n for n, f in self.funcs.items()
                        if any(ast.unparse(d) == 'staticmethod' for d in f.decorator_list)}
         self.atoms = Atoms()
+        self._calls = {}
+        self.imported = set()                   # names bound by import statements (modules, functions)
+        self.caller_held = caller_held          # attributes in which __init__ keeps the caller's own object (no copy)
         self.init_consts = init_consts or {}      # constructor-constant attribute -> ('c', value) when known
         self.const_attrs = const_attrs            # attributes never stored outside __init__ (syntactic)
         self.reset(None)
@@ -286,7 +299,7 @@ class Walker:
 
     def cap(self, states):
         states = merge(states)
-        if len(states) > MAX_STATES:
+        if len(states) > SOFT_STATES:
             # forget what was assumed about the arguments (sound: more paths are merged), then give up
             for s in states:
                 s.C = frozenset((t, v) for t, v in s.C if self.atoms.attrs[t])
@@ -302,10 +315,10 @@ class Walker:
         if incoming:
             for (cls, meth), sites in IMPLICIT.items():
                 if cls == self.clsname and meth in self.stack:
-                    for a, txt in sites:
-                        if a == attr and txt in stmt_text:
+                    for a, co in sites:
+                        if a == attr and (co is None or ('self.' + co) in stmt_text):
                             st.F = st.F | {attr}
-                            self.implicit_hit.add((meth, a, txt))
+                            self.implicit_hit.add((meth, a, co))
 
     # ---------------- evaluation of tests on what is known
     def known(self, st, node):
@@ -387,7 +400,7 @@ class Walker:
         if isinstance(node, ast.Name):
             if node.id == 'self':
                 return ('self',)
-            return st.L.get(node.id, FRESH)
+            return st.L.get(node.id, ('global', node.id))
         if isinstance(node, ast.Attribute):
             if self.is_self_attr(node):
                 a = node.attr
@@ -465,10 +478,12 @@ class Walker:
             self.fail('in-place mutation of the caller\'s argument `%s` (%s)' % (av[1], what), node)
         if av[0] == 'self':
             self.fail('mutation of self (%s)' % what, node)
+        if av[0] == 'global' and av[1] not in self.imported:
+            self.fail('in-place mutation of the module-level object `%s` (%s): shared by every call' % (av[1], what), node)
 
     def call(self, st, node, stmt_text, rets):
         f = node.func
-        fname = ast.unparse(f)
+        fname = unp(f)
         # calls of methods of this class are inlined at statement level (see `inline_calls`); here: their value
         if rets is not None and id(node) in rets:
             return rets[id(node)]
@@ -491,7 +506,13 @@ class Walker:
                     st.AV[recv[1]] = FRESH
                 else:
                     self.mutate(st, recv, what, node)
-        elif isinstance(f, ast.Name):
+        if any(av[0] == 'self' for av in args + list(kwargs.values())):
+            self.fail('self handed to %s(...): what the callee does to the object is outside the analysis' % fname, node)
+        if fname in MUT_FUNCS and args:
+            self.mutate(st, args[0], '%s(...) writes into its first argument' % fname, node)
+        if 'out' in kwargs:
+            self.mutate(st, kwargs['out'], '%s(..., out=...)' % fname, node)
+        if isinstance(f, ast.Name):
             if f.id in ('setattr', 'delattr'):
                 self.fail('%s(...)' % f.id, node)
             if f.id in ('exec', 'eval'):
@@ -561,6 +582,9 @@ class Walker:
         if isinstance(tgt.value, ast.Attribute) and tgt.value.attr in ('loc', 'iloc', 'at', 'iat'):
             base = self.expr(st, tgt.value.value, stmt_text, rets)
             self.expr(st, tgt.slice, stmt_text, rets)
+            if base[0] == 'attr' and base[1] in self.caller_held:
+                self.fail('store into self.%s, which is the caller\'s own object (the constructor keeps it without a copy)'
+                          % base[1], node)
             if base[0] == 'attr':
                 sl = tgt.slice
                 if tgt.value.attr == 'loc' and isinstance(sl, ast.Tuple) and len(sl.elts) == 2 and \
@@ -592,6 +616,9 @@ class Walker:
         self.expr(st, tgt.slice, stmt_text, rets)
         key = self.const_key(tgt.slice)
         if base[0] == 'attr':
+            if base[1] in self.caller_held:
+                self.fail('store into self.%s, which is the caller\'s own object (the constructor keeps it without a copy)'
+                          % base[1], node)
             if key is None:
                 self.mutate(st, base, 'store with a computed key %s' % ast.unparse(tgt)[:60], node)
             col = '%s[%s]' % (base[1], key)
@@ -625,11 +652,14 @@ class Walker:
     # ---------------- inlining of calls to methods of the class
     def self_calls(self, node):
         """calls `self.m(...)` with m a function of the class, innermost first"""
-        out = []
-        for x in ast.walk(node):
-            if isinstance(x, ast.Call) and self.is_self_attr(x.func) and x.func.attr in self.funcs:
-                out.append(x)
-        return out[::-1]
+        r = self._calls.get(id(node))
+        if r is None or r[0] is not node:
+            out = []
+            for x in ast.walk(node):
+                if isinstance(x, ast.Call) and self.is_self_attr(x.func) and x.func.attr in self.funcs:
+                    out.append(x)
+            r = self._calls[id(node)] = (node, out[::-1])
+        return r[1]
 
     def inline(self, states, call, stmt_text, ctrl, rets_per_state):
         """run the callee from every state; returns [(state, rets mapping)]"""
@@ -735,7 +765,7 @@ class Walker:
         return out
 
     def stmt(self, s, states, ctrl):
-        text = ast.unparse(s) if not isinstance(s, (ast.If, ast.For, ast.While, ast.With, ast.Try)) else None
+        text = unp(s) if not isinstance(s, (ast.If, ast.For, ast.While, ast.With, ast.Try)) else None
         if isinstance(s, ast.Expr):
             if isinstance(s.value, ast.Constant):
                 return Flow(nxt=states)
@@ -823,7 +853,7 @@ class Walker:
                 self.bind_local(st, s.name, FRESH)
             return Flow(nxt=states)
         if isinstance(s, ast.If):
-            ttext = 'if ' + ast.unparse(s.test)
+            ttext = 'if ' + unp(s.test)
             flow = Flow()
             for st, rets in self.with_calls(states, s.test, ttext, ctrl):
                 self.expr(st, s.test, ttext, rets)
@@ -842,8 +872,8 @@ class Walker:
             flow.nxt = self.cap(flow.nxt)
             return flow
         if isinstance(s, (ast.For, ast.While)):
-            head = ('for %s in %s' % (ast.unparse(s.target), ast.unparse(s.iter))) if isinstance(s, ast.For) \
-                else 'while ' + ast.unparse(s.test)
+            head = ('for %s in %s' % (unp(s.target), unp(s.iter))) if isinstance(s, ast.For) \
+                else 'while ' + unp(s.test)
             entry = []
             hnode = s.iter if isinstance(s, ast.For) else s.test
             for st, rets in self.with_calls(states, hnode, head, ctrl):
@@ -990,7 +1020,13 @@ def analyse_class(text, clsname, methods):
         raise EffUnsupported('class %s not found' % clsname)
     if cdef.bases and [ast.unparse(b) for b in cdef.bases] != ['object']:
         raise EffUnsupported('%s has base classes %s' % (clsname, [ast.unparse(b) for b in cdef.bases]))
+    imported = set()
+    for n in ast.walk(tree):
+        if isinstance(n, (ast.Import, ast.ImportFrom)):
+            imported |= {(a.asname or a.name).split('.')[0] for a in n.names}
+    imported |= {n.name for n in tree.body if isinstance(n, (ast.FunctionDef, ast.ClassDef))}
     w0 = Walker(clsname, cdef)
+    w0.imported = imported
     if '__init__' not in w0.funcs:
         raise EffUnsupported('%s has no __init__' % clsname)
     stored = stored_outside_init(cdef)
@@ -1005,8 +1041,10 @@ def analyse_class(text, clsname, methods):
         if len(vals) == 1 and all(a in f.W for f in init['finals']) and init['finals'][0].K.get(a) is not None:
             init_const[a] = init['finals'][0].K[a]
     const_syntactic = frozenset(a for a in init_attrs if a not in stored)
+    held = frozenset(a for f in init['finals'] for a, av in f.AV.items() if av[0] == 'arg')
     w = Walker(clsname, cdef, init_consts={a: v for a, v in init_const.items() if a in const_syntactic},
-               const_attrs=const_syntactic)
+               const_attrs=const_syntactic, caller_held=held)
+    w.imported = imported
     w.implicit_hit = set()
     # ---- every public method; table variants first
     public = [n for n in w.funcs if not n.startswith('_') and n not in w.static]
@@ -1235,17 +1273,17 @@ def analyse_class(text, clsname, methods):
     # every declared implicit site must have been met
     for (c, mm), sites in IMPLICIT.items():
         if c == clsname:
-            for a, txt in sites:
-                if (mm, a, txt) not in w.implicit_hit:
-                    raise EffUnsupported('%s.%s: the declared failing read of %s (`%s`) is no longer in the source'
-                                         % (clsname, mm, a, txt))
+            for a, co in sites:
+                if (mm, a, co) not in w.implicit_hit:
+                    raise EffUnsupported('%s.%s: the declared failing read of %s%s is no longer in the source'
+                                         % (clsname, mm, a, (' (together with %s)' % co) if co else ''))
     additive = sorted(set().union(*[v['additive'] for v in allv]))
     return {'class': clsname, 'nslots': len(slot), 'nregs': len(registers), 'sigs': sigs,
             'slots': {m: sorted(maywrite[m] - scratch) for m in slot},
             'fit_state': sorted(set().union(*[maywrite[m] - scratch for m in fits])) if fits else [],
             'registers': [(m, attrs, {a: (c[a][0][0], c[a][1], c[a][2]) for a in attrs}) for m, attrs, c in registers],
             'assumes': sorted(set(assumes)), 'param': any(s['blocked'] for s in sigs), 'additive': additive,
-            'scratch': sorted(scratch), 'const': sorted(const_attrs), 'notes': sorted({n for v in allv for n in v['notes']}),
+            'scratch': sorted(scratch), 'const': sorted(const_attrs), 'caller_held': sorted(held), 'notes': sorted({n for v in allv for n in v['notes']}),
             'init_notes': init['notes']}
 
 
@@ -1311,8 +1349,61 @@ def analyse_repo_class(defname, repo=None):
     raise KeyError(defname)
 
 
+# the six stale-state defects F26: (repairing commit of /repo, lean table, attribute the register must name)
+F26 = [('d8e0d14', 'snm', '_scipy_solver_obj'), ('bc565f5', 'ipmw', 'missing'), ('9205f74', 'stochTmle', '_specified_bound_'),
+       ('1ad23ba', 'aiptw', '_exp_model_custom'), ('4d6b174', 'tmle', '_exp_model_custom'),
+       ('03e191c', 'timeFixed', 'predicted_df')]
+
+
+def selftest(repo=None):
+    """The analysis on the text of the parent of each F26 repair (must emit a register naming the attribute) and on
+    the repaired text (must emit none).  -> list of records; `ok` False when an expectation fails; [] when the git
+    history of the repository cannot be read."""
+    import subprocess
+    repo = repo or os.environ.get('ZEPID_REPO', '/repo')
+    cfg = {d: (cls, path, methods) for d, cls, path, methods, names in CLASSES}
+    out = []
+    for h, d, attr in F26:
+        cls, path, methods = cfg[d]
+        for rev, want in ((h + '^', True), (h, False)):
+            r = subprocess.run(['git', '-C', repo, 'show', '%s:%s' % (rev, path)], capture_output=True, text=True)
+            if r.returncode != 0:
+                return []
+            try:
+                res = analyse_class(r.stdout, cls, methods)
+                regs = sorted(a for m, attrs, _ in res['registers'] for a in attrs)
+                got = attr in regs
+                out.append({'rev': rev, 'class': cls, 'registers': regs, 'ok': got == want and (want or not regs)})
+            except EffUnsupported as e:
+                out.append({'rev': rev, 'class': cls, 'unsupported': str(e), 'ok': False})
+    return out
+
+
+def tables_summary(repo=None):
+    """per class what the analysis derived from the current source (evidence for harness/props/c11.py)"""
+    out = {}
+    for d, cls, path, methods, names in CLASSES:
+        try:
+            res, _ = analyse_repo_class(d, repo)
+            out[cls] = {'nslots': res['nslots'], 'nregs': res['nregs'], 'slots': res['slots'],
+                        'registers': [{'method': m, 'attributes': attrs,
+                                       'silent_call': sorted({why[a][1] for a in attrs}),
+                                       'read_by': sorted({why[a][0] for a in attrs})}
+                                      for m, attrs, why in res['registers']],
+                        'assumes': res['assumes'], 'additive': res['additive'],
+                        'sigs': [lean_sig(s) for s in res['sigs']]}
+        except EffUnsupported as e:
+            out[cls] = {'unsupported': str(e)}
+    return out
+
+
 if __name__ == '__main__':
     import json
+    if '--selftest' in sys.argv:
+        st = selftest()
+        for r in st:
+            print(r)
+        sys.exit(0 if st and all(r['ok'] for r in st) else 1)
     bad = 0
     for d, cls, path, methods, names in CLASSES:
         if len(sys.argv) > 1 and not sys.argv[1].startswith('-') and sys.argv[1] not in (d, cls):
